@@ -45,6 +45,7 @@ pub fn replay(input: &str, output: &str) {
     let mut out = Out::create(output);
     let mut evals = 0u64;
     let mut nontrivial = 0u64;
+    let mut small = rng(1718);
     for (id, line) in lines.iter().enumerate() {
         let qs = 5f64.powi(line["qn"].as_i64().unwrap() as i32);
         let p: [[f64; 3]; 3] = std::array::from_fn(|i| pt(&line["p"][i], 1.0));
@@ -91,6 +92,55 @@ pub fn replay(input: &str, output: &str) {
                 }
             }
             other => out.put(json!({"sig": format!("frame3:rigid-images-rejected:{}", name(other)), "detail": desc.to_string(), "data": desc})),
+        }
+        // the same target points listed in another order: congruent only if the mutual distances still correspond
+        // (within 5 mm); judged by the distances themselves, 1 mm away from the tolerance on either side
+        if id % 2 == 1 {
+            for perm in [[0usize, 2, 1], [1, 2, 0], [2, 1, 0]] {
+                let qp = [q[perm[0]], q[perm[1]], q[perm[2]]];
+                let dd = |a: &[[f64; 3]; 3], i: usize, j: usize| oracle::norm(&oracle::sub(&a[i], &a[j]));
+                let worst = [(0, 1), (0, 2), (1, 2)].iter().map(|(i, j)| (dd(&p, *i, *j) - dd(&qp, *i, *j)).abs()).fold(0.0, f64::max);
+                let o5 = build(&p, &qp);
+                evals += 1;
+                if worst > 0.006 && !matches!(o5, Outcome::NotIso) {
+                    out.put(json!({"sig": format!("frame3:reordered-incongruent-target-not-rejected:{}", name(&o5)), "detail": format!("order {:?}, distances differ by {:.4} m; {}", perm, worst, desc), "data": desc}));
+                }
+                if worst < 0.004 {
+                    match &o5 {
+                        Outcome::Ok(f) => {
+                            let w = (0..3).map(|i| oracle::norm(&oracle::sub(&f.apply(&p[i]), &qp[i]))).fold(0.0, f64::max);
+                            if f.improper() > 1e-9 || w > worst + 1e-6 { out.put(json!({"sig": "frame3:reordered-congruent-target-not-mapped", "detail": desc.to_string(), "data": desc})); }
+                        }
+                        other => out.put(json!({"sig": format!("frame3:reordered-congruent-target-rejected:{}", name(other)), "detail": desc.to_string(), "data": desc})),
+                    }
+                }
+            }
+        }
+        // small rigid motions of the same triple (rotations of 0.1 mrad to 20 mrad about arbitrary axes, shifts of
+        // micrometres to centimetres): the frame still maps every point onto its image
+        if id % 3 == 0 {
+            let ax = [small.gen_range(-1.0..1.0), small.gen_range(-1.0..1.0), small.gen_range(-1.0..1.0f64)];
+            let n = oracle::norm(&ax).max(1e-3);
+            let ang = 10f64.powf(small.gen_range(-4.0..-1.7));
+            let rq = nalgebra::UnitQuaternion::from_axis_angle(&nalgebra::Unit::new_normalize(nalgebra::Vector3::new(ax[0] / n, ax[1] / n, ax[2] / n)), ang);
+            let sh = 10f64.powf(small.gen_range(-6.0..-1.5));
+            let mo = Iso::from_na(&nalgebra::Isometry3::from_parts(nalgebra::Translation3::new(sh * ax[1], -sh * ax[2], sh * ax[0]), rq));
+            // (metres: the lattice points scaled to a 0.1 .. 1 m triangle about its own first point)
+            let scale = 0.5 / (1e-9 + oracle::norm(&oracle::sub(&p[1], &p[0])).max(oracle::norm(&oracle::sub(&p[2], &p[0]))));
+            let ps: [[f64; 3]; 3] = std::array::from_fn(|i| oracle::add(&p[0], &oracle::scale(scale, &oracle::sub(&p[i], &p[0]))));
+            let qs2: [[f64; 3]; 3] = std::array::from_fn(|i| mo.apply(&ps[i]));
+            let o6 = build(&ps, &qs2);
+            evals += 1;
+            match &o6 {
+                Outcome::Ok(f) => {
+                    let w = (0..3).map(|i| oracle::norm(&oracle::sub(&f.apply(&ps[i]), &qs2[i]))).fold(0.0, f64::max);
+                    let tol = if tri == 4 { 1e-6 } else { 1e-8 } * (1.0 + oracle::norm(&ps[0]));
+                    if f.improper() > 1e-9 || !(w <= tol) {
+                        out.put(json!({"sig": "frame3:small-motion-points-not-mapped-to-images", "detail": format!("rotation {:.3e} rad, shift {:.3e} m: worst point {:.3e} m off; {}", ang, sh, w, desc), "data": desc}));
+                    }
+                }
+                other => out.put(json!({"sig": format!("frame3:small-motion-rejected:{}", name(other)), "detail": desc.to_string(), "data": desc})),
+            }
         }
         // perturbation families along the edge P1->P3 of the TARGET triple: 3 mm (accepted), 8 mm (rejected)
         let edge = oracle::sub(&q[2], &q[0]);
@@ -158,6 +208,7 @@ pub fn record(output: &str) {
     let mut r = rng(1717);
     let n = if thorough() { 20_000 } else { 2_000 };
     let nano = |x: f64| -> i64 { if x.is_finite() { (x * 1e9).round().min(2e9) as i64 } else { 2_000_000_000 } };
+    let mut last_q: Joints = [0.0; 6];
     for k in 0..n {
         let mut p = robots::geometry(robots::GEOMETRY_CLASSES[k % robots::GEOMETRY_CLASSES.len()], &mut r);
         p = robots::convention(p, r.gen_range(0..64), ["zero", "quarter", "random"][k % 3], &mut r);
@@ -168,7 +219,10 @@ pub fn record(output: &str) {
         let mut fr = solver::random_iso(&mut r, 0.05);
         if k % 2 == 0 { fr.r = oracle::rot(['x', 'y', 'z'][k % 3], r.gen_range(-0.1..0.1)); }
         let framed = Frame { robot: robot.kin.clone(), frame: fr.to_na() };
-        let q: Joints = std::array::from_fn(|_| r.gen_range(-2.5..2.5));
+        let mut q: Joints = std::array::from_fn(|_| r.gen_range(-2.5..2.5));
+        // (one call in four passes the very joint vector of the preceding call to another robot and frame)
+        if k % 4 == 3 { q = last_q; }
+        last_q = q;
         let prev: Joints = std::array::from_fn(|i| q[i] + r.gen_range(-0.05..0.05));
         let Some((sols, pose)) = guarded(|| framed.forward_transformed(&q, &prev)) else {
             out.put(json!({"ev": "ftrans", "outcome": "panic"}));
